@@ -49,6 +49,9 @@ const (
 	gcWorkerServiceSafePointID = "gc_worker"
 )
 
+// gcWorkerServiceSafePointKey is the key of gc_worker's service safe point.
+var gcWorkerServiceSafePointKey = path.Join(gcPath, "safe_point", "service", gcWorkerServiceSafePointID)
+
 const (
 	maxKVRangeLimit = 10000
 	minKVRangeLimit = 100
@@ -480,11 +483,17 @@ func (s *Storage) SaveServiceGCSafePoint(ssp *ServiceSafePoint) error {
 		return errors.New("service id of service safepoint cannot be empty")
 	}
 
-	if ssp.ServiceID == gcWorkerServiceSafePointID && ssp.ExpiredAt != math.MaxInt64 {
-		return errors.New("TTL of gc_worker's service safe point must be infinity")
-	}
-
+	// The key is cleaned by path.Join, so ids such as "gc_worker/" or "x/../gc_worker"
+	// address gc_worker's entry too: decide on the key, not on the id as it was sent.
 	key := path.Join(gcPath, "safe_point", "service", ssp.ServiceID)
+	if key == gcWorkerServiceSafePointKey {
+		if ssp.ServiceID != gcWorkerServiceSafePointID {
+			return errors.Errorf("service id %q is an alias of gc_worker", ssp.ServiceID)
+		}
+		if ssp.ExpiredAt != math.MaxInt64 {
+			return errors.New("TTL of gc_worker's service safe point must be infinity")
+		}
+	}
 	value, err := json.Marshal(ssp)
 	if err != nil {
 		return err
@@ -495,10 +504,10 @@ func (s *Storage) SaveServiceGCSafePoint(ssp *ServiceSafePoint) error {
 
 // RemoveServiceGCSafePoint removes a GC safepoint for the service
 func (s *Storage) RemoveServiceGCSafePoint(serviceID string) error {
-	if serviceID == gcWorkerServiceSafePointID {
+	key := path.Join(gcPath, "safe_point", "service", serviceID)
+	if key == gcWorkerServiceSafePointKey {
 		return errors.New("cannot remove service safe point of gc_worker")
 	}
-	key := path.Join(gcPath, "safe_point", "service", serviceID)
 	return s.Remove(key)
 }
 
